@@ -1,29 +1,43 @@
 --------------------------- MODULE TraceRewrites ---------------------------
 (***************************************************************************)
-(* Direction B for C06.  Every line of the trace is one random rewrite     *)
-(* table of 10-20 entries (multi-level wildcards, chains, cycles,          *)
-(* duplicates, keywords) over a larger universe of names than the          *)
-(* exhaustive one, with the queries that were put to the real code and     *)
-(* what it did:                                                            *)
-(*   lvl = "filt"  the result of filtering.CheckHost: rewritten or not,    *)
-(*                 canonical name, address list;                           *)
-(*   lvl = "pipe"  what a DNS client and the upstream saw when the query   *)
-(*                 went through the real dnsforward.Server.                *)
-(* The oracle is RewritesCore's own Outcomes / Serve: an observation is    *)
-(* accepted iff it is the projection of an admissible outcome.  Rejected   *)
-(* observations are reported as [line, query number, what was admissible].                    *)
+(* Direction B for C06.  A trace line is one of                            *)
+(*   lvl = "filt"  a random rewrite table of 10-20 entries (multi-level    *)
+(*                 wildcards, chains, cycles, duplicates, keywords, some   *)
+(*                 canonical names written in another letter case) with    *)
+(*                 the queries put to filtering.CheckHost and its results: *)
+(*                 rewritten or not, canonical name, address list;         *)
+(*   lvl = "pipe"  the same kind of table with what a DNS client and the   *)
+(*                 upstream saw when the query went through the real       *)
+(*                 dnsforward.Server;                                      *)
+(*   lvl = "hist"  one step in the life of ONE filter whose table is       *)
+(*                 edited through the API: "reset" (new, empty filter) or  *)
+(*                 an edit add / del / upd with its arguments, whether the *)
+(*                 call succeeded, the table the API lists afterwards, and *)
+(*                 the queries asked after the edit (half of them asked    *)
+(*                 before already) with their results.                     *)
+(* The oracle is RewritesCore's own Outcomes / Serve / TabAdd / TabDelete  *)
+(* / TabUpdate: an observation is accepted iff it is the projection of an  *)
+(* outcome admissible for the CURRENT table (cur), which for "hist" lines  *)
+(* is the result of applying the logged edits with the specification's     *)
+(* operators -- and must be the table the API lists.  Rejected             *)
+(* observations are reported as [line, query number (0 = the edit          *)
+(* itself), what was admissible].                                          *)
 (***************************************************************************)
 EXTENDS RewritesCore, TLC, Json
 
 Trace == ndJsonDeserialize("trace.ndjson")
 
-VARIABLES l, bad
+VARIABLES l, bad, cur
 
 ToSet(s) == {s[i] : i \in DOMAIN s}
 
+\* Admissible outcomes for a logged table: entries carry mc = "the canonical
+\* name is written in another letter case" (RewritesCore: SILENT (case)).
+Admitted(tab, h, qt) == OutcomesAnyCase(tab, LAMBDA i : tab[i].mc, h, qt)
+
 \* filtering level: [h, qt, r, canon, ips]
 FiltOK(tab, x) ==
-    \E o \in Outcomes(tab, x.h, x.qt) :
+    \E o \in Admitted(tab, x.h, x.qt) :
         /\ o.r = x.r
         /\ o.canon = x.canon
         /\ o.ips = ToSet(x.ips)
@@ -31,7 +45,7 @@ FiltOK(tab, x) ==
 \* pipeline level: [h, qt, ask, rcode, qok, cname, ips, fromup, odd, answered]
 PipeOK(tab, x) ==
     /\ x.answered /\ x.qok /\ x.rcode = "NOERROR" /\ x.odd = ""
-    /\ \E o \in Outcomes(tab, x.h, x.qt) :
+    /\ \E o \in Admitted(tab, x.h, x.qt) :
          LET e == Serve(o, x.h, x.qt) IN
          /\ e.ask = {<<a[1], a[2]>> : a \in ToSet(x.ask)}
          /\ Len(x.ask) = Cardinality(e.ask)
@@ -42,22 +56,40 @@ PipeOK(tab, x) ==
 \* What the specification admits for a query, in the vocabulary of the trace
 \* (reported with every rejected observation so that the orchestrator can
 \* classify it).
-Expected(ln, x) ==
-    IF ln.lvl = "pipe" THEN {Serve(o, x.h, x.qt) : o \in Outcomes(ln.tab, x.h, x.qt)}
-    ELSE {[r |-> o.r, canon |-> o.canon, ips |-> o.ips] : o \in Outcomes(ln.tab, x.h, x.qt)}
+Expected(lvl, tab, x) ==
+    IF lvl = "pipe" THEN {Serve(o, x.h, x.qt) : o \in Admitted(tab, x.h, x.qt)}
+    ELSE {[r |-> o.r, canon |-> o.canon, ips |-> o.ips] : o \in Admitted(tab, x.h, x.qt)}
 
-RECURSIVE BadFrom(_, _)
-BadFrom(i, j) ==
+RECURSIVE BadFrom(_, _, _)
+BadFrom(i, j, tab) ==
     LET ln == Trace[i] IN
     IF j > Len(ln.qs) THEN <<>>
     ELSE LET x == ln.qs[j]
-             ok == IF ln.lvl = "pipe" THEN PipeOK(ln.tab, x) ELSE FiltOK(ln.tab, x) IN
-         (IF ok THEN <<>> ELSE <<[l |-> i, q |-> j, exp |-> Expected(ln, x)]>>) \o BadFrom(i, j + 1)
+             ok == IF ln.lvl = "pipe" THEN PipeOK(tab, x) ELSE FiltOK(tab, x) IN
+         (IF ok THEN <<>> ELSE <<[l |-> i, q |-> j, exp |-> Expected(ln.lvl, tab, x)]>>)
+           \o BadFrom(i, j + 1, tab)
 
-Init == l = 1 /\ bad = <<>>
+\* The table after line i.
+After(i) ==
+    LET ln == Trace[i] IN
+    IF ln.lvl # "hist" THEN [ok |-> TRUE, tab |-> ln.tab]
+    ELSE IF ln.ev = "reset" THEN [ok |-> TRUE, tab |-> <<>>]
+    ELSE IF ln.ev = "add" THEN [ok |-> TRUE, tab |-> TabAdd(cur, ln.a)]
+    ELSE IF ln.ev = "del" THEN [ok |-> TRUE, tab |-> TabDelete(cur, ln.a)]
+    ELSE TabUpdate(cur, ln.a, ln.b)
+
+\* The edit did what the specification says: same success, same table listed.
+EditOK(i, r) ==
+    LET ln == Trace[i] IN
+    ln.lvl = "hist" /\ ln.ev # "reset" => ln.ok = r.ok /\ ln.list = r.tab
+
+Init == l = 1 /\ bad = <<>> /\ cur = <<>>
 Next == /\ l <= Len(Trace)
-        /\ bad' = bad \o BadFrom(l, 1)
+        /\ LET r == After(l) IN
+           /\ cur' = IF Trace[l].lvl = "hist" THEN r.tab ELSE cur
+           /\ bad' = bad \o (IF EditOK(l, r) THEN <<>> ELSE <<[l |-> l, q |-> 0, exp |-> {}]>>)
+                         \o BadFrom(l, 1, r.tab)
         /\ l' = l + 1
         /\ (l' = Len(Trace) + 1 => PrintT(<<"@@V", ToJson([n |-> Len(Trace), bad |-> bad'])>>))
-Spec == Init /\ [][Next]_<<l, bad>>
+Spec == Init /\ [][Next]_<<l, bad, cur>>
 =============================================================================
